@@ -963,6 +963,9 @@ def configure(ctx):
         "with equal stamps the property is false (coherent_refuted_coarse_clock)",
         "processes run one after the other (the commands hold the C09 locks); two live Eups instances of different "
         "users that interleave their updates are outside the model",
+        "no user's data directory is a stack's ups_db; an administrator's instance (asAdmin) only loads - the command "
+        "line offers it to eups admin buildCache / clearCache only - and holds no user tags (documented in Eups.__init__); "
+        "the user-tag theorem is about the instances of ordinary users",
         "the theorem is about queries for flavors the asking instance consults (its own flavor and the fall-back "
         "generic); queries about any other flavor are asked as well, compared with the model, and their incoherence is "
         "the open finding matched by c07.unconsulted_flavor",
